@@ -326,6 +326,73 @@ def shard_unreplicate(dk, per, v):
   return JU.unreplicate({'m': rep})['m'] == ('r', 0)
 
 
+# ------------------------------------------------------------ PrefetchIterator
+from harness import prefetch_model as PM
+import itertools as _it
+
+_MODEL = None
+
+
+def _model():
+  global _MODEL
+  if _MODEL is None:
+    _MODEL = PM.build_model()[0]      # regenerated from /repo's current source
+  return _MODEL
+
+
+class _Src:
+  def __init__(self, n, fail):
+    self.n, self.fail, self.i = n, fail, 0
+
+  def __next__(self):
+    i = self.i
+    self.i += 1
+    if i == self.fail:
+      raise SourceError(i)
+    if i >= self.n:
+      raise StopIteration
+    return i
+
+
+def _expected(n, fail_at):
+  upto = n if fail_at < 0 or fail_at > n else fail_at
+  out = [('item', i) for i in range(upto)]
+  out.append(('stop',) if fail_at < 0 or fail_at > n else ('error', (fail_at,)))
+  return out
+
+
+NCH = 14
+
+
+def prefetch_iterator_schedules(n, fail_at, size, c0, c1, c2, c3, c4, c5, c6, c7, c8,
+                                c9, c10, c11, c12, c13):
+  """under every interleaving of producer and consumer (schedule = symbolic choice
+  sequence, consulted whenever both threads can run) the consumer sees exactly the
+  source items in order, each once, then StopIteration or the source's error"""
+  if fail_at > n:
+    raise Reject()
+  ch = [c0, c1, c2, c3, c4, c5, c6, c7, c8, c9, c10, c11, c12, c13]
+  choices = _it.chain(iter(ch), _it.cycle([False, True]))
+  try:
+    obs, trace = PM.run_schedule(_model(), _Src(n, fail_at), size, n + 2, choices)
+  except PM.Deadlock:
+    return False
+  return obs == _expected(n, fail_at)
+
+
+def replay_prefetch_iterator(n, fail_at, size, **cs):
+  """re-derive the schedule in the model, force REAL threads through it on the
+  real class, compare what the real consumer observes"""
+  ch = [cs['c%d' % i] for i in range(NCH)]
+  choices = _it.chain(iter(ch), _it.cycle([False, True]))
+  try:
+    obs, trace = PM.run_schedule(_model(), _Src(n, fail_at), size, n + 2, choices)
+  except PM.Deadlock as e:
+    trace = e.args[0]
+  real = PM.replay_on_real_class(trace, lambda: _Src(n, fail_at), size, n + 2)
+  return real == _expected(n, fail_at)
+
+
 EXPLANATION = (
     'C20: pad_shard_unpad executed on a segment-array stand-in whose batch size b '
     'and min_device_batch are unbounded symbolic ints (device count d enumerated '
@@ -337,7 +404,12 @@ ASSUMPTIONS = (
     'segment arrays, jax.local_device_count -> d, jax.device_get identity, '
     'device_put_sharded -> tagging stub',
     'scan_in_dim (real lax.scan), replicate (device placement), onehot (jnp) are '
-    'not covered; PrefetchIterator thread schedules: see obligation list',
+    'not covered',
+    'PrefetchIterator: threads are modelled as coroutines generated from the AST '
+    'of the real methods, pre-emption only at synchronisation events (acquire/'
+    'release/wait/notify/thread start/source read); Condition semantics as '
+    'documented; counterexample schedules are replayed on the real class with '
+    'real threads forced through the same event order',
     'jax.core.get_opaque_trace_state compat shim installed by the harness process',
 )
 
@@ -362,6 +434,20 @@ def obligations(tier):
               fail_at=I(-1, 5 if quick else 7)), split=('n',), timeout=300,
          funcs=G, bounds='source length, buffer size and failing position (-1 = '
                           'no failure; n = fails after the last item) all symbolic'),
+      Ob('prefetch_iterator_schedules', prefetch_iterator_schedules,
+         dict(n=I(0, 2 if quick else 3), fail_at=I(-1, 2 if quick else 3),
+              size=I(1, 2), **{'c%d' % i: (B() if (not quick or i < 10) else I(0, 0))
+                               for i in range(NCH)}),
+         split=('n', 'fail_at', 'size'), timeout=900,
+         funcs=qualnames(PM.PI.PrefetchIterator.__init__,
+                         PM.PI.PrefetchIterator.__next__,
+                         PM.PI.PrefetchIterator._prefetch_loop),
+         replay=replay_prefetch_iterator,
+         bounds='two-thread transition system generated from the AST of the real '
+                'class; source length 0..%d, failing position, buffer size 1..2; '
+                'schedules = every sequence of %d symbolic choices at points where '
+                'both threads can run (then alternating)' % (
+                    2 if quick else 3, 10 if quick else NCH)),
       Ob('invert_perm', invert_perm,
          dict(n=I(0, 4), a=I(0, 3), b=I(0, 3), c=I(0, 3), e=I(0, 3)), timeout=300,
          funcs=qualnames(JU._invert_perm), bounds='all permutations of <=4'),
